@@ -40,6 +40,21 @@ call consumes a caller-supplied `io.Reader` with a mutex held (the reader may bl
 likes, or call back into the registry — a copy within one registry — without stopping anyone else). -/
 theorem caller_content_read_outside_the_lock : readsCallerReaderUnderLock = [] := by decide
 
+/-- the first mutex of the receiver that the method locks for its whole body, if any -/
+def firstWholeBodyLock (L : List (String × String × String)) (recv meth : String) : Option String :=
+  ((L.filter fun x => x.1 == recv && x.2.1 == meth).head?).map (·.2.2)
+
+/-- `Buffer.Commit` takes a mutex of the buffer as the first thing it does and holds it for its whole
+body, and `Buffer.Cancel` does the same with the SAME mutex — `Buffer.commitMu` (fix F33; the
+statement does not depend on that name). So the calls of `Commit` and `Cancel` on one upload
+session exclude one another from beginning to end: the schedules of atomic steps that can occur
+are the `MemConc.CommitSerial` ones. Taking the lock away from either function, or taking it
+later than at the top of the body, or releasing it before the return, breaks this obligation. -/
+theorem generated_commit_serialized :
+    (firstWholeBodyLock wholeBodyLocks "Buffer" "Commit").isSome = true ∧
+    firstWholeBodyLock wholeBodyLocks "Buffer" "Commit" = firstWholeBodyLock wholeBodyLocks "Buffer" "Cancel" := by
+  decide
+
 /-! ## The concurrent model: every interleaving of atomic steps
 
 `H` (the content hash) is a parameter throughout; nothing is assumed about it. -/
@@ -284,5 +299,139 @@ theorem sequential_commit_refines (c : CState) (r id dig : Bytes) :
       exact absurd rfl hne
 
 end
+
+/-! ### K6 — with the commit lock, a commit reports and stores the digest it was asked for (F33) -/
+
+section
+variable (H : Bytes → Bytes)
+
+/-- The same as `commit_reports_own_digest` below, with the schedule cut at the two steps. -/
+theorem commit_reports_own_digest_split (c : CState) (pre mid post : List AStep) (r id dig : Bytes)
+    (hs : CommitSerial H c (pre ++ .commitCheck r id dig :: (mid ++ .commitStore r id :: post)))
+    (hok : (astep H (arun H c pre) (.commitCheck r id dig)).2 = .okUnit)
+    (hmid : ∀ a ∈ mid, a ≠ .commitStore r id) :
+    ∃ rp b, getBuffer (arun H c pre).st r id = some (rp, b) ∧ H b.buf = dig ∧
+      (astep H (arun H c (pre ++ .commitCheck r id dig :: mid)) (.commitStore r id)).2 =
+        .okDesc ⟨octetStream, dig, b.buf.length⟩ ∧
+      ∃ rp2, getRepo (arun H c (pre ++ .commitCheck r id dig :: (mid ++ [.commitStore r id]))).st r = some rp2 ∧
+        alookup dig rp2.blobs = some ⟨octetStream, b.buf, [], []⟩ := by
+  obtain ⟨rp, b, hb, hc⟩ := commitCheck_ok_buffer H hok
+  have hwin := commitSerial_window H pre mid post hs hok hmid
+  have hno : NoCommitOf r id mid := fun a ha => not_isCommitOf_of_not_takes (hwin a ha)
+  obtain ⟨hd, rp1, _, hst, rp2, hg2, hl2⟩ := commit_stores_checked_bytes H hb hc mid hno
+  have e1 : arun H c (pre ++ .commitCheck r id dig :: mid) =
+      arun H (astep H (arun H c pre) (.commitCheck r id dig)).1 mid := by
+    rw [arun_append, arun_cons]
+  have e2 : arun H c (pre ++ .commitCheck r id dig :: (mid ++ [.commitStore r id])) =
+      (astep H (arun H (astep H (arun H c pre) (.commitCheck r id dig)).1 mid) (.commitStore r id)).1 := by
+    rw [arun_append, arun_cons, arun_append, arun_cons, arun_nil]
+  refine ⟨rp, b, hb, hd, ?_, rp2, ?_, hl2⟩
+  · rw [e1, hst]
+  · rw [e2]; exact hg2
+
+/-- **With the commit lock a commit reports, and stores, what it was asked for.** Take ANY schedule
+of atomic steps that respects `Buffer.commitMu` (`CommitSerial`), from any state, with any hash.
+If the step at position `i` is `commitCheck r id dig` and succeeds, and the session's next
+`commitStore r id` is at position `j`, then — whatever the steps in between are: writes to that
+very session, other sessions' commits, pushes, deletes … — that `commitStore` answers
+`⟨octet-stream, dig, n⟩` for the digest `dig` the commit was called with, `n` being the length of
+the bytes `b.buf` the buffer held when they were checked, those bytes hash to `dig`, and right
+after the step the repository holds exactly them under `dig`. -/
+theorem commit_reports_own_digest (c : CState) (sched : List AStep) (hs : CommitSerial H c sched)
+    {i j : Nat} {r id dig : Bytes}
+    (hi : sched[i]? = some (.commitCheck r id dig))
+    (hok : (aouts H c sched)[i]? = some .okUnit)
+    (hij : i < j) (hj : sched[j]? = some (.commitStore r id))
+    (hnext : ∀ k, i < k → k < j → sched[k]? ≠ some (.commitStore r id)) :
+    ∃ rp b, getBuffer (arun H c (sched.take i)).st r id = some (rp, b) ∧ H b.buf = dig ∧
+      (aouts H c sched)[j]? = some (.okDesc ⟨octetStream, dig, b.buf.length⟩) ∧
+      ∃ rp2, getRepo (arun H c (sched.take (j + 1))).st r = some rp2 ∧
+        alookup dig rp2.blobs = some ⟨octetStream, b.buf, [], []⟩ := by
+  obtain ⟨e1, hl1⟩ := split_at_getElem? hi
+  have hj' : (sched.drop (i + 1))[j - i - 1]? = some (.commitStore r id) := by
+    rw [List.getElem?_drop]
+    have : i + 1 + (j - i - 1) = j := by omega
+    rw [this]; exact hj
+  obtain ⟨e2, hl2⟩ := split_at_getElem? hj'
+  generalize hpre : sched.take i = pre at e1 hl1
+  generalize hrest : sched.drop (i + 1) = rest at e1 e2 hl2
+  generalize hmidE : rest.take (j - i - 1) = mid at e2 hl2
+  generalize hpost : rest.drop (j - i - 1 + 1) = post at e2
+  have hmid : ∀ a ∈ mid, a ≠ .commitStore r id := by
+    intro a ha e
+    rw [← hmidE] at ha
+    obtain ⟨k, hk, hg⟩ := mem_take_getElem? ha
+    rw [← hrest, List.getElem?_drop, e] at hg
+    exact hnext (i + 1 + k) (by omega) (by omega) hg
+  have es : sched = pre ++ .commitCheck r id dig :: (mid ++ .commitStore r id :: post) := by
+    rw [← e2]; exact e1
+  have hok' : (astep H (arun H c pre) (.commitCheck r id dig)).2 = .okUnit := by
+    have := aouts_at H c pre (.commitCheck r id dig) (mid ++ .commitStore r id :: post)
+    rw [← es, hl1, hok] at this
+    exact (Option.some.inj this).symm
+  obtain ⟨rp, b, hb, hd, hout, rp2, hg2, hb2⟩ :=
+    commit_reports_own_digest_split H c pre mid post r id dig (es ▸ hs) hok' hmid
+  have hlen : (pre ++ .commitCheck r id dig :: mid).length = j := by
+    simp [hl1, hl2]; omega
+  have es' : sched = (pre ++ .commitCheck r id dig :: mid) ++ .commitStore r id :: post := by
+    rw [es]; simp
+  refine ⟨rp, b, hb, hd, ?_, rp2, ?_, hb2⟩
+  · have := aouts_at H c (pre ++ .commitCheck r id dig :: mid) (.commitStore r id) post
+    rw [← es', hlen] at this
+    rw [this, hout]
+  · have : sched.take (j + 1) = pre ++ .commitCheck r id dig :: (mid ++ [.commitStore r id]) := by
+      rw [es', ← hlen, take_length_succ_append]; simp
+    rw [this]; exact hg2
+
+end
+
+open DualCommit in
+/-- **F33, why the lock is needed.** Without `Buffer.commitMu` the schedule `DualCommit.sched` can
+occur (two handles on one upload session; the hash is the identity): `Commit(d1)` checks the
+buffer `[1]`, the other handle writes `[2]` and its `Commit(d2)` checks `[1,2]`, then the two
+callbacks run. Both checks succeed; the callback that stores answers with the descriptor of `d2`
+and the other one has nothing to store — so whichever of the two belongs to `Commit(d1)`, that
+commit does not report `d1` —; afterwards the repository holds `d2` and NO blob `d1`, although
+`Commit(d1)` passed its check. The schedule is not `CommitSerial`: the hypothesis of
+`commit_reports_own_digest` cannot be dropped. -/
+theorem dual_commit_anomaly_without_the_lock :
+    aouts Hid c0 sched =
+      [.okUnit, .okN 1, .okUnit, .okDesc ⟨octetStream, d2, 2⟩, .err "NOT-CHECKED"] ∧
+    (getRepo (arun Hid c0 sched).st rD).map (fun rp => (alookup d1 rp.blobs, alookup d2 rp.blobs)) =
+      some (none, some ⟨octetStream, d2, [], []⟩) ∧
+    ¬ CommitSerial Hid c0 sched := by
+  refine ⟨?_, ?_, ?_⟩ <;> decide
+
+open DualCommit in
+/-- A `Cancel` between the two sections of a `Commit` is not `CommitSerial` either (in Go, before
+the fix, that window made the callback store an empty blob; the model does not follow the
+callback there, and with the lock it need not). -/
+theorem cancel_inside_commit_not_serial : ¬ CommitSerial Hid c0 cancelSched := by decide
+
+/-! `CommitSerial` is not vacuous: `DualCommit.serialSched` has a write to the very session, a size
+query, a whole commit and a refused commit of another session, a cancel of that other session and
+a delete between the two sections of `Commit(d1)`, then a second commit of the session and a
+cancel. It respects the lock, and `commit_reports_own_digest` applies to both of its commits. -/
+
+open DualCommit in
+example : CommitSerial Hid c0 serialSched := by decide
+
+open DualCommit in
+example : ∃ rp b, getBuffer (arun Hid c0 (serialSched.take 0)).st rD uD = some (rp, b) ∧ Hid b.buf = d1 ∧
+    (aouts Hid c0 serialSched)[9]? = some (.okDesc ⟨octetStream, d1, b.buf.length⟩) ∧
+    ∃ rp2, getRepo (arun Hid c0 (serialSched.take (9 + 1))).st rD = some rp2 ∧
+      alookup d1 rp2.blobs = some ⟨octetStream, b.buf, [], []⟩ :=
+  commit_reports_own_digest Hid c0 serialSched (by decide) (i := 0) (j := 9) rfl (by decide)
+    (by decide) rfl (by
+      intro k h1 h2
+      have : k = 1 ∨ k = 2 ∨ k = 3 ∨ k = 4 ∨ k = 5 ∨ k = 6 ∨ k = 7 ∨ k = 8 := by omega
+      rcases this with rfl | rfl | rfl | rfl | rfl | rfl | rfl | rfl <;> simp [serialSched, uD, vD])
+
+open DualCommit in
+/-- the outputs of the serial schedule: each of the two commits of session `u` reports its own digest -/
+example : aouts Hid c0 serialSched =
+    [.okUnit, .okN 1, .okN 2, .okUnit, .okN 1, .okDesc ⟨octetStream, [9], 1⟩, .err "DIGEST_INVALID",
+     .okUnit, .okUnit, .okDesc ⟨octetStream, d1, 1⟩, .okUnit, .okN 1, .okDesc ⟨octetStream, d2, 2⟩, .okUnit] := by
+  decide
 
 end OciModel.Props.C08
